@@ -130,6 +130,7 @@ class Agg(object):
     self.samples = []
     self.abnormal = {}
     self.mismatch = 0
+    self.counts = {}
 
   def add(self, res, idx):
     self.runs += 1
@@ -145,6 +146,8 @@ class Agg(object):
       self.faults[k] = self.faults.get(k, 0) + v
     for k, v in (res.get('probes') or {}).items():
       self.probes[k] = self.probes.get(k, 0) + v
+    for k, v in (res.get('counts') or {}).items():
+      self.counts[k] = self.counts.get(k, 0) + v
     self.steps += res.get('steps', 0)
     self.switches += res.get('switches', 0)
     self.preempts += res.get('preempts', 0)
@@ -164,6 +167,8 @@ class Agg(object):
       self.faults[k] = self.faults.get(k, 0) + v
     for k, v in o.probes.items():
       self.probes[k] = self.probes.get(k, 0) + v
+    for k, v in o.counts.items():
+      self.counts[k] = self.counts.get(k, 0) + v
     self.steps += o.steps
     self.switches += o.switches
     self.preempts += o.preempts
@@ -497,6 +502,7 @@ def write_evidence(mod, tier, seed, agg, wall, nviol, known_seen, abns, extra=No
                           'that are non-trivial by the rule; distinct_schedules = distinct '
                           'hashes of the (from,to,step) context-switch sequence',
       'faults_fired': dict(sorted(agg.faults.items())),
+      'counts': dict(sorted(agg.counts.items())),
       'reach_probes': dict(sorted(agg.probes.items())),
       'probes_at_zero': sorted(k for k in getattr(mod, 'EXPECTED_PROBES', [])
                                if not agg.probes.get(k)),
